@@ -477,7 +477,9 @@ trigonometric_operators = (sin, cos, tan)
 
 multiple_output_operators = {modf: 2, frexp: 2, divmod_: 2}
 
-LARGE_INPUT = {4: 16777217, 8: 9007199254740993}
+# largest n such that every integer of magnitude <= n is held exactly by the
+# float of the same item size (keyed by item size)
+LARGE_INPUT = {2: 2**11, 4: 2**24, 8: 2**53}
 
 
 class unyt_array(np.ndarray):
@@ -772,7 +774,7 @@ class unyt_array(np.ndarray):
                     )
                 new_dtype = "f" + str(dsize)
                 large = LARGE_INPUT.get(dsize, 0)
-                if large and np.any(np.abs(values) > large):
+                if large and (np.any(values > large) or np.any(values < -large)):
                     warnings.warn(
                         f"Overflow encountered while converting to units '{new_units}'",
                         RuntimeWarning,
@@ -955,7 +957,7 @@ class unyt_array(np.ndarray):
             dsize = max(2, self.dtype.itemsize)
             if self.dtype.kind in ("u", "i"):
                 large = LARGE_INPUT.get(dsize, 0)
-                if large and np.any(np.abs(self.d) > large):
+                if large and (np.any(self.d > large) or np.any(self.d < -large)):
                     warnings.warn(
                         f"Overflow encountered while converting to units '{new_units}'",
                         RuntimeWarning,
